@@ -49,7 +49,7 @@ type ParamSpec struct {
 }
 
 type Op struct {
-	Kind    string `json:"kind"` // headers inv newpeer donepeer writecf rollback
+	Kind    string `json:"kind"` // headers inv newpeer donepeer writecf rollback restart
 	Peer    int    `json:"peer,omitempty"`
 	Now     int64  `json:"now,omitempty"`
 	Nodes   []int  `json:"nodes,omitempty"`
@@ -120,6 +120,48 @@ type env struct {
 	stackBuf []byte
 	hung     string
 	fault    *faultStore // the block header store given to the block manager
+	// what a restart needs to build a new block manager over the same stores
+	params   *chaincfg.Params
+	memCap   uint32
+	restarts int
+	// generation: histories that contain restarts draw from their own stream
+	r3          *rand.Rand
+	restartHist bool
+}
+
+// newBM builds a block manager over the environment's stores the way
+// NewChainService does (newBlockManager through the verif hook) and installs
+// the observation plumbing: with -prop C19 the unbuffered notification
+// channel consumed by the harness and the fault-injecting store wrapper.
+func (v *env) newBM() {
+	var err error
+	if *propFlag == "C19" {
+		if v.fault == nil {
+			// the block manager reads block headers through a wrapper that
+			// can make one read of a backlog request fail
+			v.fault = &faultStore{BlockHeaderStore: v.e.BS}
+		}
+		v.bm, err = neutrino.VerifNewBlockManager(*v.params, v.fault, v.e.FS, v.ts, v.memCap)
+	} else {
+		v.bm, err = neutrino.VerifNewBlockManager(*v.params, v.e.BS, v.e.FS, v.ts, v.memCap)
+	}
+	if err != nil {
+		panic(err)
+	}
+	if *propFlag == "C19" {
+		v.unbufferNotifications()
+	}
+}
+
+// restart: the process is stopped and started again. The old block manager
+// is dropped (nothing of its in-memory state survives), a NEW one is built
+// over the SAME stores, and the peers are gone: they have to connect again.
+func (v *env) restart() {
+	v.bm = nil
+	v.ntfn = nil
+	v.peers = map[int]*neutrino.ServerPeer{}
+	v.newBM()
+	v.restarts++
 }
 
 type clock struct{ t time.Time }
@@ -326,6 +368,9 @@ func (v *env) exec(op *Op) {
 	case "rollback":
 		v.bm.RollBackToHeight(uint32(op.H))
 		op.Term = fmt.Sprintf("(ORollback %d)", op.H)
+	case "restart":
+		v.restart()
+		op.Term = "ORestart"
 	default:
 		panic(op.Kind)
 	}
@@ -498,7 +543,9 @@ func genOps(r, r2 *rand.Rand, t *Tree, v *env, nops int, now0 int64) []Op {
 					v.panicStep = len(ops)
 				}
 			}()
-			if v.ntfn != nil {
+			if v.ntfn != nil && op.Kind != "restart" {
+				// (a restart replaces the notification channel: it runs on
+				// this goroutine and emits nothing)
 				evs, op.Probes = v.execProbed(&op, plan, true)
 			} else {
 				v.exec(&op)
@@ -590,8 +637,67 @@ func genOps(r, r2 *rand.Rand, t *Tree, v *env, nops int, now0 int64) []Op {
 		emitP(Op{Kind: "writecf", Node: stop, N: k, BadPrev: bad}, plan)
 		return true
 	}
+	// restart: a new block manager over the same stores; every peer is gone
+	doRestart := func() {
+		emit(Op{Kind: "restart"})
+		for id := range alive {
+			delete(alive, id)
+		}
+	}
 	firstPeer := 1
 	switch {
+	case t.restart != nil:
+		// sync the main chain, commit some filter headers, RESTART, then one
+		// peer (the sync peer after the restart) reveals three branches that
+		// fork d >= 2 blocks below the stored tip, i.e. below everything the
+		// in-memory window holds after the restart: equal work (refused),
+		// less work (refused), more work (adopted)
+		ri := t.restart
+		mainTip := t.main[len(t.main)-1]
+		addPeerAt(1, mainTip)
+		full := t.path(t.Nodes[0], mainTip)
+		for i := 0; i < 12; i++ {
+			// answer like a node: the headers the client does not have yet
+			// (a message is cut at a checkpoint)
+			var rest []*Node
+			for _, n := range full {
+				hh := n.Hash
+				if _, err := v.e.BS.HeightFromHash(&hh); err != nil {
+					rest = append(rest, n)
+				}
+			}
+			if len(rest) == 0 {
+				break
+			}
+			k := 3 + v.r3.Intn(8)
+			if k > len(rest) {
+				k = len(rest)
+			}
+			emit(Op{Kind: "headers", Peer: 1, Now: nowOK(), Nodes: nodeIDs(rest[:k])})
+		}
+		for i := v.r3.Intn(4); i > 0; i-- {
+			if !cfBatch(2+v.r3.Intn(4), false, nil) {
+				break
+			}
+		}
+		if v.r3.Intn(3) == 0 {
+			emit(Op{Kind: "donepeer", Peer: 1})
+			delete(alive, 1)
+		}
+		doRestart()
+		ps[2] = &pstate{leaf: ri.heavy, sent: ri.heavy}
+		alive[2] = true
+		emit(Op{Kind: "newpeer", Peer: 2, Start: ri.heavy.Height, Last: ri.heavy.Height, Full: true})
+		firstPeer = 3
+		order := [][]*Node{t.path(ri.base, ri.tie), t.path(ri.base, ri.light)}
+		if v.r3.Intn(2) == 0 {
+			order[0], order[1] = order[1], order[0]
+		}
+		for _, br := range order {
+			emit(Op{Kind: "headers", Peer: 2, Now: nowOK(), Nodes: nodeIDs(br)})
+		}
+		emit(Op{Kind: "headers", Peer: 2, Now: nowOK(), Nodes: nodeIDs(t.path(ri.base, ri.heavy))})
+		cfBatch(2+v.r3.Intn(3), false, nil)
 	case t.trap != nil:
 		// ONE headers message from the sync peer, sent while the tip is
 		// below the first checkpoint, that matches the first checkpoint
@@ -657,8 +763,13 @@ func genOps(r, r2 *rand.Rand, t *Tree, v *env, nops int, now0 int64) []Op {
 				break
 			}
 		}
-		emit(Op{Kind: "donepeer", Peer: 1})
-		delete(alive, 1)
+		if v.restartHist && v.r3.Intn(2) == 0 {
+			// the longer branch is revealed to a restarted client
+			doRestart()
+		} else {
+			emit(Op{Kind: "donepeer", Peer: 1})
+			delete(alive, 1)
+		}
 		addPeerAt(2, t.reorgLeaf)
 		firstPeer = 3
 		var branch []*Node
@@ -736,6 +847,19 @@ func genOps(r, r2 *rand.Rand, t *Tree, v *env, nops int, now0 int64) []Op {
 				}
 				seg = rest[:k]
 				st.sent = seg[len(seg)-1]
+				if _, bt, err := v.e.BS.ChainTip(); err == nil && v.restartHist && v.restarts < 2 &&
+					fork.Height < int32(bt) && v.r3.Intn(2) == 0 {
+					// a fork below the stored tip is about to be revealed:
+					// restart first; the peer connects again (new id) and
+					// answers the restarted client
+					doRestart()
+					nid := nextPeer
+					nextPeer++
+					ps[nid] = &pstate{leaf: st.leaf, sent: st.sent}
+					alive[nid] = true
+					emit(Op{Kind: "newpeer", Peer: nid, Start: st.leaf.Height, Last: st.leaf.Height, Full: true})
+					id = nid
+				}
 			case y < 14: // continue after what was sent, chunked
 				rest := t.path(st.sent, st.leaf)
 				if len(rest) == 0 {
@@ -799,6 +923,9 @@ func genOps(r, r2 *rand.Rand, t *Tree, v *env, nops int, now0 int64) []Op {
 			// (rollBackToHeight is only ever reached through
 			// handleHeadersMsg: reorganisations and checkpoint
 			// mismatches; it is not driven directly)
+			if v.restartHist && v.restarts < 3 {
+				doRestart()
+			}
 			continue
 		}
 	}
@@ -818,6 +945,8 @@ func runHistory(id int, seed int64, nops int, base string, replay *History) (h H
 	defer os.RemoveAll(dir)
 	r := c.Rng(seed, id)
 	r2 := c.Rng(seed, id+500009)
+	r3 := c.Rng(seed, id+700001)
+	restartHist := false
 	now0 := chaincfg.SimNetParams.GenesisBlock.Header.Timestamp.Unix() + 3600
 	var ps ParamSpec
 	var t *Tree
@@ -841,7 +970,13 @@ func runHistory(id int, seed int64, nops int, base string, replay *History) (h H
 			Bip94: r.Intn(6) == 0, BipHeight: []int32{0, 0, 5}[r.Intn(3)], MemCap: []uint32{40, 48, 64, 0}[r.Intn(4)]}
 		// scenario histories draw from their own stream (r2); the plain
 		// histories are the same with and without them
+		// ... and so do the histories with restarts (r3): 12% the scripted
+		// restart scenario, another 18% restarts injected into the history
+		rmode := r3.Intn(100)
+		restartHist = rmode < 30
 		switch mode := r2.Intn(100); {
+		case rmode < 12:
+			t = genRestartTree(r3, &ps, now0)
 		case mode < 15:
 			t = genTrapTree(r2, &ps, now0)
 		case mode < 60 && *propFlag == "C19":
@@ -865,20 +1000,9 @@ func runHistory(id int, seed int64, nops int, base string, replay *History) (h H
 	}
 	v.gfh = *gf
 	v.filterTok(*gf)
-	bsArg := e.BS
-	if *propFlag == "C19" {
-		// the block manager reads block headers through a wrapper that
-		// can make one read of a backlog request fail
-		v.fault = &faultStore{BlockHeaderStore: e.BS}
-		bsArg = v.fault
-	}
-	v.bm, err = neutrino.VerifNewBlockManager(*params, bsArg, e.FS, v.ts, ps.MemCap)
-	if err != nil {
-		panic(err)
-	}
-	if *propFlag == "C19" {
-		v.unbufferNotifications()
-	}
+	v.params, v.memCap = params, ps.MemCap
+	v.r3, v.restartHist = r3, restartHist
+	v.newBM()
 	h = History{ID: id, Seed: seed, Params: ps}
 	if replay != nil {
 		for _, op := range replay.Ops {
@@ -893,7 +1017,7 @@ func runHistory(id int, seed int64, nops int, base string, replay *History) (h H
 						v.panicStep = len(h.Ops)
 					}
 				}()
-				if v.ntfn != nil {
+				if v.ntfn != nil && op.Kind != "restart" {
 					evs, op.Probes = v.execProbed(&op, plan, false)
 				} else {
 					v.exec(&op)
@@ -1113,6 +1237,12 @@ func main() {
 		if envs[i].tree.reorgLeaf != nil {
 			rep.Histogram["histories_c19_batch_reorg_scenario"]++
 		}
+		if envs[i].tree.restart != nil {
+			rep.Histogram["histories_restart_fork_scenario"]++
+		}
+		if envs[i].restarts > 0 {
+			rep.Histogram["histories_with_restart"]++
+		}
 		rep.Histogram["tree_nodes"] += len(envs[i].tree.Nodes)
 		rep.Histogram["checkpoints"] += len(h.Params.Checkpoints)
 		if reorg && cf {
@@ -1121,7 +1251,7 @@ func main() {
 	}
 	rep.Evaluations = n
 	rep.DistinctNontrivial = len(distinct)
-	rep.Rule = "histories on the real blockManager handlers over real header stores: a random block tree (main chain 8-30, up to 4 forks incl. work ties and longer branches, single-rule corruptions: pow, bits, time-old, time-new, version) under random parameters (retarget interval 3-8, no-retarget / min-difficulty / BIP94 flags, 0-3 checkpoints, in-memory window 2..10000) revealed by 1-4 peers in chunks, duplicates, overlaps, unconnected batches, with inv, peer arrivals/departures, filter-header batches; scenario histories from a separate PRNG stream: (15%) two checkpoints closer together than one headers message with a valid branch leaving the main chain right after the first one, ONE message from the sync peer through both checkpoint heights while the tip is below the first; (-prop C19, 45%) main chain synced, filter headers committed in batches of >= 3 up to the tip, then a longer valid branch forking >= 2 blocks below the tip, then batches on the new branch; with -prop C19 every operation runs against an unbuffered notification channel and NotificationsSinceHeight is probed while the handler is blocked on event k and after it returned (histogram backlog_probes*), also with the n-th FetchHeaderByHeight of the request made to fail through a wrapper of the block header store (backlog_requests_with_read_fault); non-trivial = the history contains a rollback/reorganisation (disconnect events) and committed filter headers (connect events); distinct = distinct op-kind signature"
+	rep.Rule = "histories on the real blockManager handlers over real header stores: a random block tree (main chain 8-30, up to 4 forks incl. work ties and longer branches, single-rule corruptions: pow, bits, time-old, time-new, version) under random parameters (retarget interval 3-8, no-retarget / min-difficulty / BIP94 flags, 0-3 checkpoints, in-memory window 2..10000) revealed by 1-4 peers in chunks, duplicates, overlaps, unconnected batches, with inv, peer arrivals/departures, filter-header batches; scenario histories from a separate PRNG stream: (15%) two checkpoints closer together than one headers message with a valid branch leaving the main chain right after the first one, ONE message from the sync peer through both checkpoint heights while the tip is below the first; (-prop C19, 45%) main chain synced, filter headers committed in batches of >= 3 up to the tip, then a longer valid branch forking >= 2 blocks below the tip, then batches on the new branch; histories with restarts from a third PRNG stream (30%): a restart builds a NEW blockManager (newBlockManager through the verif hook) over the SAME stores, re-installs the notification plumbing and forgets all peers, which have to connect again; (12%) scripted: main chain synced under no-retargeting, filter headers committed, restart, then the new sync peer reveals an equal-work and a lighter branch forking >= 2 blocks below the stored tip (below the whole in-memory window: refused) and a heavier one (adopted); (18%) a restart right before a peer reveals a fork below the stored tip, or at a random point; with -prop C19 every operation runs against an unbuffered notification channel and NotificationsSinceHeight is probed while the handler is blocked on event k and after it returned (histogram backlog_probes*), also with the n-th FetchHeaderByHeight of the request made to fail through a wrapper of the block header store (backlog_requests_with_read_fault); non-trivial = the history contains a rollback/reorganisation (disconnect events) and committed filter headers (connect events); distinct = distinct op-kind signature"
 	for i := 0; i < n && i < 2; i++ {
 		rep.Samples = append(rep.Samples, hs[i])
 	}
